@@ -33,10 +33,22 @@ static void vt_del(void *p) {
 #    define vt_del(p)
 #endif
 
+/* VERIF_ALLOC_SIZES: a size that is constant in every execution but that CBMC cannot fold syntactically (e.g. computed from a
+ * struct copied out of a heap object) would create an object of SYMBOLIC size, which goes through the array theory and does not
+ * fit in memory.  Listing the candidate constants turns it into a case split over constant-size objects; any other size falls
+ * through to the general allocation, so nothing is assumed. */
+static void *verif_alloc_split(size_t size) {
+#ifdef VERIF_ALLOC_SIZES
+    static const size_t cand[] = {VERIF_ALLOC_SIZES};
+    for (size_t i = 0; i < sizeof(cand) / sizeof(cand[0]); ++i)
+        if (size == cand[i]) return verif_malloc(cand[i]);
+#endif
+    return verif_malloc(size);
+}
 void *aws_mem_acquire(struct aws_allocator *allocator, size_t size) {
     ASSERT(allocator != NULL, "aws_mem_acquire: NULL allocator (library aborts)");
     ASSERT(size != 0, "aws_mem_acquire: size 0 (library aborts)");
-    void *p = verif_malloc(size);
+    void *p = verif_alloc_split(size);
     vt_add(p, size);
     return p;
 }
@@ -45,14 +57,19 @@ void *aws_mem_calloc(struct aws_allocator *allocator, size_t num, size_t size) {
     ASSERT(num != 0 && size != 0, "aws_mem_calloc: zero size (library aborts)");
     size_t tot;
     ASSERT(!__builtin_mul_overflow(num, size, &tot), "aws_mem_calloc: size overflow (library aborts)");
-    void *p = verif_malloc(tot);
+    void *p = verif_alloc_split(tot);
     memset(p, 0, tot);
     vt_add(p, tot);
     return p;
 }
 void aws_mem_release(struct aws_allocator *allocator, void *ptr) {
     ASSERT(allocator != NULL, "aws_mem_release: NULL allocator (library aborts)");
+#ifdef VERIF_NO_FREE
+    /* released blocks are never recycled and never invalidated (use-after-free is then not detectable; stated where used) */
+    if (ptr) { vt_del(ptr); }
+#else
     if (ptr) { vt_del(ptr); free(ptr); }
+#endif
 }
 int aws_mem_realloc(struct aws_allocator *allocator, void **ptr, size_t oldsize, size_t newsize) {
     ASSERT(allocator != NULL, "aws_mem_realloc: NULL allocator (library aborts)");
